@@ -214,7 +214,7 @@ PROPS = {
         "assumptions": ["doc/doc.md keeps its '### Inbuilt Aliases' code blocks", "a helper that tests both members of a pair satisfies SYN-1 by itself"],
     },
     "C03": {
-        "rules": [("ENV-1", env.env1), ("ENV-2", env.env2), ("ENV-3", env.env3), ("FLW-12", flw.flw12), ("PAN-5", pan.pan5), ("FLW-13", r5.flw13), ("ENV-5", r5.env5), ("ENV-6", r5.env6), ("ENV-7", r5.env7), ("ENV-8", r5.env8), ("ENV-9", r5.env9), ("FLW-16", r5.flw16), ("PUR-8", r5.pur8)],
+        "rules": [("ENV-1", env.env1), ("ENV-2", env.env2), ("ENV-3", env.env3), ("FLW-12", flw.flw12), ("PAN-5", pan.pan5), ("FLW-13", r5.flw13), ("ENV-5", r5.env5), ("ENV-6", r5.env6), ("ENV-7", r5.env7), ("ENV-8", r5.env8), ("ENV-9", r5.env9), ("FLW-16", r5.flw16), ("PUR-8", r5.pur8), ("POL-2", r5.pol2), ("ENV-10", r5.env10)],
         "explanation": "Decides the plumbing clauses of C03 ('whose left neighbours match the context and do not match the exception', 'scanning left to right'), not the rewrite semantics. "
                        "ENV-1: in SubRule::match_contexts_and_exceptions, for contexts and for exceptions alike, the before-half is a reversed copy of the pair's first element, matched by "
                        "match_before_env on `word.reverse()` at `start_pos.reversed(word)`; the after-half is the pair's second element, matched by match_after_env on the word at end_pos; "
@@ -227,7 +227,7 @@ PROPS = {
     },
     "C04": {
         "controls": ["BIT"],
-        "rules": [("TAB-1", tab.tab1), ("TAB-2", tab.tab2), ("TAB-3", tab.tab3), ("BIT-3", bit.bit3), ("FLW-8", flw2.flw8), ("FLW-8c", r5.flw8c), ("ENV-4", env4mod.env4), ("POL-1", pol.pol1), ("SHR-5", r5.shr5), ("TAB-9", r5.tab9), ("SUP-8", r5.sup8), ("TAB-11", r5.tab11)],
+        "rules": [("TAB-1", tab.tab1), ("TAB-2", tab.tab2), ("TAB-3", tab.tab3), ("BIT-3", bit.bit3), ("FLW-8", flw2.flw8), ("FLW-8c", r5.flw8c), ("ENV-4", env4mod.env4), ("POL-1", pol.pol1), ("SHR-5", r5.shr5), ("TAB-9", r5.tab9), ("SUP-8", r5.sup8), ("TAB-11", r5.tab11), ("POL-2", r5.pol2)],
         "explanation": "ENV-4: in match_contexts_and_exceptions the contexts are matched before the exceptions, so an alpha first bound in the context carries into the exception. POL-1 decides the sign clauses ('named value', 'or its inverse with -α') as sibling agreement: in each of the 39 matches on BinMod / AlphaMod of the library, arms with the same skeleton differ in polarity (never the same code for both signs), and the sites whose meaning the accessors fix -- third argument of Segment::set_feat / feat_match, `Alpha::Feature(f != 0)` -- receive the positive polarity in the Positive / Alpha arm and the negative one in the Negative / InvAlpha arm. FLW-8 decides the scoping clause of alpha binding ('in the same application'): on MIR, every call of input_match_at in SubRule::apply is dominated inside the scan loop by HashMap::clear of both `alphas` and `variables` (directly or through a SubRule method that clears on every path), and every restart of a partial input match in input_match_at (`state_index = 0` inside the loop) is paired in the same iteration with clears of both tables. BIT-3 decides the single-feature equations of C04 for all segments at once by bit-level abstract interpretation of Segment::{get_node,set_node,set_feat,feat_match}: on a symbolic segment (3 symbolic bytes, place = one of 17 presence shapes with symbolic payloads), for every node, single-bit mask and polarity: feat_match is the named bit (its negation for -) and false on an absent sub-node; set_feat(+) yields old|bit (creating an absent sub-node with its other bits 0), set_feat(-) yields old&!bit and is the identity on an absent sub-node; every other node reads exactly as before; the feature then matches with the polarity set. Tables: the hand-maintained index tables (FType/NodeType/NodeKind "
                        "from_usize & count, DiaFeatType = NodeType++FType, hm_to_mod split constant, modifier array lengths, "
                        "diacritics.json keys) agree, the 16-bit place packing is laid out consistently and used consistently by its accessors (TAB-3, see C18), and FType::to_node_mask maps every feature to exactly one bit, bits of a node "
